@@ -174,6 +174,10 @@ func genC16Name(rt *rapid.T) string {
 			name = strings.ToUpper(name)
 		}
 	}
+	if rapid.IntRange(0, 7).Draw(rt, "tldLetters") == 0 { // a name part that contains the letters of a TLD (its own or the other one)
+		name = rapid.SampledFrom([]string{"superjkl", "myibc", "jklabs", "ibcx", "jkl", "ibc", "ajkl", "jkljkl", "a.jkl", "xibcjkl", "JKLabs", "ujkl"}).Draw(rt, "tldName")
+		n = len(name)
+	}
 	tld := rapid.SampledFrom([]string{"jkl", "ibc"}).Draw(rt, "tld")
 	sep := rapid.SampledFrom([]string{".", ".", ".", "x", " ", "_"}).Draw(rt, "sep")
 	if rapid.IntRange(0, 9).Draw(rt, "innerBlank") == 0 && n >= 2 { // a blank inside the name part
